@@ -16,6 +16,7 @@ import JanetModel.Marsh.EnvBitsetLemmas
 import JanetModel.Marsh.CodeRoundtrip
 import JanetModel.Marsh.AbstractLemmas
 import JanetModel.Asm.InstrLemmas
+import JanetModel.Asm.DefLemmas
 import JanetModel.Marsh.CodeData
 
 namespace JanetModel.Props.C09
@@ -403,6 +404,93 @@ example : JanetModel.Asm.decode 0x80010005 = some (.addImmediate, [0, 1, -128]) 
 example : (JanetModel.Asm.decode 0x80010005).bind (fun p => JanetModel.Asm.encode p.1 p.2) = some 0x80010005 := by decide
 /-- the breakpoint bit is not reproduced (so such a word is excluded by `Canonical`) -/
 example : (JanetModel.Asm.decode 0x80010085).bind (fun p => JanetModel.Asm.encode p.1 p.2) = some 0x80010005 := by decide
+
+
+/-! ### asm ∘ disasm at funcdef level: slot count and `janet_verify`  (Asm/Def.lean)
+
+`verify` mirrors `janet_verify` (header tests, the comparisons of every `case JINT_x` in source order — generated —, the
+symbol-map loop, the terminal-opcode test); `asmOf` mirrors the part of `janet_asm1` that decides acceptance: the three arity
+assertions, `slotcount = !!(flags & VARARG) + arity` (whether the flag is already set at that point is generated:
+`slotInitCountsVararg`), the bytecode loop in which every JANET_OAT_SLOT operand `≥ slotcount` raises it (operand kinds
+generated), the final `janet_verify`.  The `:slotcount` entry of the disassembly is not read by the assembler. -/
+
+/-- **asm (disasm d) is accepted by its own verifier**, for every funcdef janet_verify accepts whose words are canonical
+and whose arities are ordered as the assembler asserts; the result is `d` with the recomputed slot count.  `extra` = the
+captured-slot operands of `ldu` / `setu` instructions of sub-funcdefs that `read_instruction` counts in this (enclosing)
+funcdef — any list of one-byte values.  Two generated facts carry the proof: the vararg flag is set before the slot count is
+initialised (otherwise the `maxslot > sc` test fails for every variadic function whose rest slot is not an operand:
+`slotInit_eq` no longer checks) and the symbol-map loop counts the slots of named locals (otherwise the `slot_index >= sc`
+test fails for a local that no instruction mentions, e.g. the unused last binding of a destructuring whose final move `movopt`
+deleted: `sym_counts` no longer checks — the defect fixed by patches/fix-C09-asm-symbolmap-slotcount.diff, /repo 709ad9e). -/
+theorem asm_disasm_def (extra : List Int) (d : JanetModel.Asm.FDef) (hv : JanetModel.Asm.verify d = 0)
+    (hc : ∀ w ∈ d.bytecode, JanetModel.Asm.Canonical w) (hmin : d.minArity ≤ d.arity) (hmax : d.arity ≤ d.maxArity)
+    (hx : ∀ x ∈ extra, x < 256) :
+    JanetModel.Asm.asmOfX extra d = some { d with slotcount := JanetModel.Asm.asmSlotcountX extra d } :=
+  JanetModel.Asm.asm_disasm_def extra d hv hc hmin hmax hx
+
+/-- the recomputed slot count covers the parameters (rest parameter included), every slot operand, every named local and
+every operand arriving from a sub-funcdef … -/
+theorem asm_slotcount_covers (extra : List Int) (d : JanetModel.Asm.FDef) (hv : JanetModel.Asm.verify d = 0) :
+    d.arity + (if d.vararg then 1 else 0) ≤ JanetModel.Asm.asmSlotcountX extra d ∧
+    (∀ w ∈ d.bytecode, ∀ a ∈ JanetModel.Asm.slotArgsW w, a < JanetModel.Asm.asmSlotcountX extra d) ∧
+    (∀ e ∈ d.symbolmap, e.birth ≠ 4294967295 → (e.slot : Int) < JanetModel.Asm.asmSlotcountX extra d) ∧
+    (∀ x ∈ extra, x < JanetModel.Asm.asmSlotcountX extra d) :=
+  JanetModel.Asm.asmSlotcount_covers extra d ((JanetModel.Asm.verify_zero_iff d).1 hv)
+
+/-- … never exceeds the original one when those operands are below it … -/
+theorem asm_slotcount_le (extra : List Int) (d : JanetModel.Asm.FDef) (hv : JanetModel.Asm.verify d = 0)
+    (hc : ∀ w ∈ d.bytecode, JanetModel.Asm.Canonical w) (hx : ∀ x ∈ extra, x < d.slotcount) :
+    JanetModel.Asm.asmSlotcountX extra d ≤ d.slotcount := JanetModel.Asm.asm_slotcount_le extra d hv hc hx
+
+/-- … and equals it when the original count is tight (parameters fill the frame, or the last slot is an operand or a named local). -/
+theorem asm_slotcount_eq (extra : List Int) (d : JanetModel.Asm.FDef) (hv : JanetModel.Asm.verify d = 0)
+    (hc : ∀ w ∈ d.bytecode, JanetModel.Asm.Canonical w) (hx : ∀ x ∈ extra, x < d.slotcount) (ht : JanetModel.Asm.Tight d) :
+    JanetModel.Asm.asmSlotcountX extra d = d.slotcount := JanetModel.Asm.asm_slotcount_eq extra d hv hc hx ht
+
+/-- **asm (disasm d) = d** on every field janet_verify reads, for funcdefs with a tight slot count (compiler output). -/
+theorem asm_disasm_def_tight (extra : List Int) (d : JanetModel.Asm.FDef) (hv : JanetModel.Asm.verify d = 0)
+    (hc : ∀ w ∈ d.bytecode, JanetModel.Asm.Canonical w) (hmin : d.minArity ≤ d.arity) (hmax : d.arity ≤ d.maxArity)
+    (hx : ∀ x ∈ extra, x < d.slotcount) (ht : JanetModel.Asm.Tight d) :
+    JanetModel.Asm.asmOfX extra d = some d := JanetModel.Asm.asm_disasm_def_tight extra d hv hc hmin hmax hx ht
+
+section AsmDefExamples
+open JanetModel.Asm
+/-- `(fn [a & xs] a)`: one instruction `(ret 0)`, the rest slot 1 is no operand -/
+def exVariadic : FDef :=
+  { vararg := true, arity := 1, minArity := 1, maxArity := 2147483647, slotcount := 2, bytecode := [0x00000003],
+    nconsts := 0, ndefs := 0, nenvs := 0, symbolmap := [⟨0, 1, 0⟩, ⟨0, 1, 1⟩] }
+example : verify exVariadic = 0 := by decide
+example : asmOf exVariadic = some exVariadic := by decide
+example : Tight exVariadic ∧ (∀ w ∈ exVariadic.bytecode, Canonical w) := by
+  refine ⟨Or.inl (by decide), ?_⟩
+  intro w hw
+  simp only [exVariadic, List.mem_singleton] at hw
+  subst hw
+  refine ⟨by decide, by decide, ?_⟩
+  show canonArgs Gen.Bytecode.IType.s 3
+  show 3 / 16777216 = 0
+  decide
+/-- `(fn [& xs] nil)` : `(retn)` -/
+example : asmOf { exVariadic with arity := 0, minArity := 0, slotcount := 1, bytecode := [0x00000004], symbolmap := [⟨0, 1, 0⟩] }
+    = some { exVariadic with arity := 0, minArity := 0, slotcount := 1, bytecode := [0x00000004], symbolmap := [⟨0, 1, 0⟩] } := by decide
+/-- a slot count that is not tight shrinks: 3 parameters' worth of frame, `(ldi 5 7) (ret 5)` → 6 -/
+example : (asmOf { exVariadic with vararg := false, slotcount := 9, bytecode := [0x0007052B, 0x00000503], symbolmap := [] }).map (·.slotcount)
+    = some 6 := by decide
+/-- `(fn [[a b] & r] a)` as compiled: `(geti 2 0 0) (movn 3 2) (geti 2 0 1) (ret 3)`, locals r a b in slots 1 3 4 — slot 4 is in
+no instruction (movopt deleted the move).  Without the symbol-map statement in janet_asm1 the assembler computed slot count 4 and
+its own janet_verify returned 10 -/
+def exDestructure : FDef :=
+  { exVariadic with slotcount := 5, bytecode := [0x0000023d, 0x0002031b, 0x0100023d, 0x00000303], symbolmap := [⟨0, 4, 1⟩, ⟨1, 4, 3⟩, ⟨3, 4, 4⟩] }
+example : verify exDestructure = 0 ∧ asmOf exDestructure = some exDestructure := by decide
+example : verify { exDestructure with slotcount := 4 } = 10 := by decide
+/-- the arity hypotheses are needed: janet_verify accepts `min-arity > arity`, the assembler asserts the opposite -/
+example : verify { exVariadic with minArity := 2 } = 0 ∧ asmOf { exVariadic with minArity := 2 } = none := by decide
+/-- `(ldu 0 0 5)` in a 1-slot closure: captured slot 5 is not counted in the closure (slot count stays 1) but in the
+enclosing funcdef, where it arrives as `extra` — there the bound `extra < slotcount` is needed for `≤` -/
+example : asmSlotcount { exVariadic with vararg := false, arity := 0, minArity := 0, slotcount := 1, nenvs := 1, bytecode := [0x0500002D, 0x00000003], symbolmap := [] } = 1 := by
+  decide
+example : asmSlotcountX [5] exVariadic = 6 ∧ asmSlotcountX [1] exVariadic = 2 := by decide
+end AsmDefExamples
 
 
 /-- **The code-object model extends the data model**: on a heap without functions, fibers or abstracts, `marshalC` of
